@@ -242,6 +242,14 @@ func (ctx *Context) fixStackMerge(pos []int) {
 			in[j] -= delta
 			j++
 		}
+		// merged glyphs behind the last input position (trailing ignored
+		// glyphs inside the match) shorten the match as well
+		for i < len(pos) {
+			if i > 0 {
+				delta++
+			}
+			i++
+		}
 
 		// We need to decide whether or not to add the new glyphs to the input
 		// glyph sequence of this action.  The behaviour is not specified in
